@@ -277,6 +277,27 @@ example :
     = some [("poll", ["r1"]), ("poll", ["r2"]), ("poll", ["t1"]), ("poll", ["t2"]), ("poll", ["r3"])] := by
   decide
 
+/-- non-vacuity for descriptions that are not one short line (round 3): `d` is an ARBITRARY string in `log_lands_in_own_step`,
+    `log_follows_own_step_start` and `set_step_always_opens_a_new_step` — neither M3 nor M4 ever inspects it (M3 keeps
+    `step : Option String`; `some ""` is a step like any other: `set_step("")` is an untitled step).  An EMPTY description, a
+    blank one, one of several lines (in the test thread and in an `lcc.Thread` that inherits the untitled step), records with
+    empty / multi-line texts: every record sits in the step that was current in its thread, descriptions compared exactly. -/
+example :
+    (match runOps St.init
+        [(1, .startTestSession), (1, .startSuite ["s"] (demoMd "s" 0)), (1, .startTest ["s", "a"] (demoMd "a" 0)),
+         (1, .setStep ""), (1, .log .info "r1"), (1, .check "" true none),
+         (1, .threadCreate 10), (10, .threadRun), (10, .log .info "t1"),
+         (1, .setStep "a\nb"), (1, .log .info "r2\nsecond line"), (10, .setStep "\n"), (10, .log .info ""), (10, .threadEnd),
+         (1, .setStep "  "), (1, .url "u" "r3"), (1, .setStep ""), (1, .attach "f" "r4" false),
+         (1, .endTest ["s", "a"]), (1, .endSuite ["s"]), (1, .endTestSession)] with
+     | .ok s =>
+       match Writer.run Writer.initState s.fired with
+       | .ok w => some (stepsView (getSteps (.test ["s", "a"]) w.report))
+       | .error _ => none
+     | .error _ => none)
+    = some [("", ["r1", ""]), ("", ["t1"]), ("a\nb", ["r2\nsecond line"]), ("\n", [""]), ("  ", ["r3"]), ("", ["r4"])] := by
+  decide
+
 /-! ## (d) which attachments the stream references (M3): only blocks that were left normally
 
   `prepare_attachment` is a context manager: the name is handed out on entry (`attachBegin`), the user's
